@@ -196,6 +196,11 @@ func (c Collection) characterizeAndFlatten(nonStaticTypes map[typeCode]bool) ([]
 	afterInit := make([]*provider, 0, len(c.contents))
 	afterInvoke := make([]*provider, 0, len(c.contents))
 
+	// The contents slice is shared with the collection being bound (and with
+	// collections derived from it): reordering and self-replacement below
+	// must not write to it.
+	c.contents = append([]*provider(nil), c.contents...)
+
 	err := c.handleReplaceByName()
 	if err != nil {
 		return nil, nil, err
